@@ -149,3 +149,16 @@ func c01Tree(w *fw.Worker, e pt.Expr, t *pt.Type, b int) {
 		}
 	}
 }
+
+// replayDiffOpts replays a differential case that carries run options.
+func replayDiffOpts(sub string, d c13Input) *fw.Violation {
+	prog, errs, gp := run.Parse(d.Src)
+	if prog == nil {
+		return &fw.Violation{Sub: sub, Signature: "replay-parse", What: "source no longer parses", Input: d, Observed: fmt.Sprint(errs, gp)}
+	}
+	p, err := astconv.Prog(prog)
+	if err != nil {
+		return &fw.Violation{Sub: sub, Signature: "replay-conv", What: err.Error(), Input: d}
+	}
+	return checkC13(nil, d, p)
+}
